@@ -19,7 +19,7 @@ RULE = ("obligations = Lean theorems of Props.C03 (shockDE components are the se
         "+ translator validation + an INDEPENDENT integrator written in the similarity variable xi (harness-owned) re-deriving Tn "
         "and kappa from every real matching; distinct = (EOS, branch, rounded vw)")
 ASSUMPTIONS = ["solve_ivp/simpson in the real code and in the harness integrator are numerical oracles; agreement is judged at 2e-4 (Tn) "
-               "and 3e-2 (kappa: the code applies Simpson's rule to the coarse adaptive RK45 steps, ~1% quadrature error)", "the ODE solution itself cannot be a theorem: partial on integration accuracy"]
+               "and 1e-2 (kappa: Simpson on 501 resampled points in the code, Simpson on the dense output in the harness)", "the ODE solution itself cannot be a theorem: partial on integration accuracy"]
 
 
 def mu_(xi, v):
@@ -132,8 +132,6 @@ def search(rep: C.Report, tier: str, broken):
                 mine = kSW + kRW
                 info.update(kappa=kap, kappa_independent=mine)
                 rep.count("kappa compared")
-                if not abs(kap - mine) <= 3e-2 * max(abs(kap), abs(mine)) + 1e-6:
-                    rel = abs(kap - mine) / max(abs(kap), abs(mine))
-                    near = branch == "hybrid" and (h.vJ - vw) < 0.02 * h.vJ and rel < 0.15
+                if not abs(kap - mine) <= 1e-2 * max(abs(kap), abs(mine)) + 1e-6:
                     rep.violation("efficiency factor differs from the kinetic-energy integral of the flow profile", info,
-                                  finding_key="C03:kappa:hybrid-near-jouguet" if near else f"C03:kappa:{branch}")
+                                  finding_key=f"C03:kappa:{branch}")
